@@ -61,3 +61,10 @@ Proof. reflexivity. Qed.
 Lemma gen_vector_include nl full short strict_list :
   g_vector_include_ok nl full short = ispart nl full /\ g_vector_strict strict_list = existsb (fun b => b) strict_list.
 Proof. split; reflexivity. Qed.
+
+(* correct_json_route_list strips the own source with pop(0) / pop(0) and the own destination with pop(-1) / pop(-1) *)
+Lemma gen_clean_pops : g_clean_pops = clean_pops.
+Proof. reflexivity. Qed.
+(* compare_reqs: twins agree on these attributes by plain equality (ordered include lists) *)
+Lemma gen_twin_attrs : g_twin_attrs = twin_attrs.
+Proof. reflexivity. Qed.
